@@ -9,6 +9,7 @@ import (
 	"testing"
 
 	"github.com/ethereum/go-ethereum/common"
+	ethcrypto "github.com/ethereum/go-ethereum/crypto"
 
 	abci "github.com/tendermint/tendermint/abci/types"
 
@@ -24,6 +25,7 @@ import (
 	ibctesting "github.com/cosmos/ibc-go/v3/testing"
 
 	"github.com/teleport-network/teleport/app"
+	erc20contracts "github.com/teleport-network/teleport/syscontracts/erc20"
 	aggregatetypes "github.com/teleport-network/teleport/x/aggregate/types"
 
 	"tsim/kernel"
@@ -79,6 +81,7 @@ type icsWorld struct {
 	relayerGas uint64
 	otherDenom bool // the packet being received carries another denomination than the registered voucher
 	aggOn      bool
+	external   bool // the voucher is aggregated by an externally owned token contract: conversion burns the vouchers and pays tokens out of the module's escrow
 }
 
 func (ICS20Scenario) Execute(p kernel.Plan, rec *kernel.Rec) {
@@ -167,7 +170,17 @@ func (w *icsWorld) apply(op kernel.Op) {
 		md := banktypes.Metadata{Description: "ibc voucher", Base: w.voucher, Display: w.voucher, Name: "stake channel-0", Symbol: "ibcSTAKE",
 			DenomUnits: []*banktypes.DenomUnit{{Denom: w.voucher, Exponent: 0}}}
 		cctx, write := ctx.CacheContext()
-		if _, err := w.bApp.AggregateKeeper.RegisterCoin(cctx, md); err != nil {
+		w.external = false
+		if op.Arg(0) == 1 {
+			// the voucher is added to the pair of an externally owned token contract, whose tokens the module
+			// already holds in escrow (somebody converted tokens into coins before)
+			if err := w.registerExternal(cctx, md); err != nil {
+				w.rec.Logf("external registration failed: %v", err)
+				return
+			}
+			w.external = true
+			w.rec.Probe("ics20.external_pair")
+		} else if _, err := w.bApp.AggregateKeeper.RegisterCoin(cctx, md); err != nil {
 			w.rec.Logf("register failed: %v", err)
 			return
 		}
@@ -228,6 +241,35 @@ func (w *icsWorld) apply(op kernel.Op) {
 	}
 }
 
+// registerExternal deploys a standard token contract owned by the user, registers it, adds the voucher to its
+// pair and converts some tokens into coins, which leaves those tokens in the module's escrow.
+func (w *icsWorld) registerExternal(ctx sdk.Context, md banktypes.Metadata) error {
+	k := w.bApp.AggregateKeeper
+	// (not the chain's sender account: its sequence is tracked by the ibc-go test chain)
+	deployer := common.HexToAddress("0x00000000000000000000000000000000000e7e12")
+	if acc := sdk.AccAddress(deployer.Bytes()); w.bApp.AccountKeeper.GetAccount(ctx, acc) == nil {
+		w.bApp.AccountKeeper.SetAccount(ctx, w.bApp.AccountKeeper.NewAccountWithAddress(ctx, acc))
+	}
+	contract := ethcrypto.CreateAddress(deployer, w.bApp.EvmKeeper.GetNonce(ctx, deployer))
+	code := deployCode(erc20contracts.ERC20MinterBurnerDecimalsContract.ABI, erc20contracts.ERC20MinterBurnerDecimalsContract.Bin, "exttoken", "EXT", uint8(6))
+	if _, err := k.CallEVMWithData(ctx, deployer, nil, code); err != nil {
+		return err
+	}
+	pair, err := k.RegisterERC20(ctx, contract)
+	if err != nil {
+		return err
+	}
+	if _, err := k.AddCoin(ctx, md, contract.String()); err != nil {
+		return err
+	}
+	if _, err := k.CallEVM(ctx, erc20contracts.ERC20MinterBurnerDecimalsContract.ABI, deployer, contract, "mint", deployer, big.NewInt(1_000_000_000)); err != nil {
+		return err
+	}
+	msg := aggregatetypes.NewMsgConvertERC20(sdk.NewInt(500_000_000), w.userB, contract, deployer, pair.Denoms[0])
+	_, err = k.ConvertERC20(sdk.WrapSDKContext(ctx), msg)
+	return err
+}
+
 var icsAmounts = []int64{1, 50, 1000, 123456}
 
 func (w *icsWorld) balances(who sdk.AccAddress) (voucherUser, voucherModule sdk.Int, tokenUser *big.Int) {
@@ -250,6 +292,12 @@ func (w *icsWorld) balances(who sdk.AccAddress) (voucherUser, voucherModule sdk.
 		}
 	}
 	return
+}
+
+// supplyAndFees: total supply of the voucher and the fee collector's balance of it.
+func (w *icsWorld) supplyAndFees() (sdk.Int, sdk.Int) {
+	ctx := w.b.GetContext()
+	return w.bApp.BankKeeper.GetSupply(ctx, w.voucher).Amount, w.bApp.BankKeeper.GetBalance(ctx, authtypes.NewModuleAddress(authtypes.FeeCollectorName), w.voucher).Amount
 }
 
 func (w *icsWorld) transfer(op kernel.Op) {
@@ -407,6 +455,7 @@ func (w *icsWorld) receive(packet channeltypes.Packet, amt sdk.Int, kind string,
 	cctx, _ := w.b.GetContext().CacheContext()
 	wantAck := ibctransfer.NewIBCModule(w.bApp.IBCTransferKeeper).OnRecvPacket(cctx, packet, w.userB)
 	preV, preM, preT := w.balances(who)
+	preS, preF := w.supplyAndFees()
 	// real MsgRecvPacket with a real proof through DeliverTx
 	packetKey := fmt.Sprintf("commitments/ports/%s/channels/%s/sequences/%d", packet.GetSourcePort(), packet.GetSourceChannel(), packet.GetSequence())
 	proof, proofHeight := w.path.EndpointA.QueryProof([]byte(packetKey))
@@ -491,8 +540,18 @@ func (w *icsWorld) receive(packet channeltypes.Packet, amt sdk.Int, kind string,
 	}
 	// atomic conversion: either +x tokens and +x escrowed vouchers, or +x vouchers and no token change
 	dV, dM, dT := postV.Sub(preV), postM.Sub(preM), new(big.Int).Sub(postT, preT)
-	converted := dT.Cmp(amt.BigInt()) == 0 && dM.Equal(amt) && dV.IsZero()
-	untouched := dV.Equal(amt) && dM.IsZero() && dT.Sign() == 0
+	postS, postF := w.supplyAndFees()
+	dS := postS.Sub(preS)
+	// module-owned contract: the received vouchers end up escrowed; externally owned contract: they are burned
+	// again (supply as before) and the tokens come out of the module's escrow
+	converted := dT.Cmp(amt.BigInt()) == 0 && dM.Equal(amt) && dV.IsZero() && dS.Equal(amt)
+	if w.external {
+		converted = dT.Cmp(amt.BigInt()) == 0 && dM.IsZero() && dV.IsZero() && dS.IsZero()
+	}
+	untouched := dV.Equal(amt) && dM.IsZero() && dT.Sign() == 0 && dS.Equal(amt)
+	if !postF.Equal(preF) {
+		w.rec.Violate("C16", "conversion_not_atomic", "fee_collector_gained:"+w.regState(), "the fee collector's voucher balance changed by %s during an ICS-20 receive of %s", postF.Sub(preF), amt)
+	}
 	switch {
 	case converted:
 		w.rec.Probe("ics20.converted")
@@ -507,5 +566,5 @@ func (w *icsWorld) receive(packet channeltypes.Packet, amt sdk.Int, kind string,
 }
 
 func (w *icsWorld) regState() string {
-	return strings.ReplaceAll(fmt.Sprintf("registered=%v,pair=%v,module=%v", w.registered, w.pairOn, w.aggOn), " ", "")
+	return strings.ReplaceAll(fmt.Sprintf("registered=%v,pair=%v,module=%v,external=%v", w.registered, w.pairOn, w.aggOn, w.external), " ", "")
 }
